@@ -802,6 +802,25 @@ fn many_errors_program(rng: &mut Rng) -> String {
             terms.push("1".to_owned());
             format!("{}\n", terms.join(" + "))
         }
+        2 if rng.chance(1, 2) => {
+            // many names in scope (tables grow, caps on how many candidates are looked at) and a
+            // misspelt use of one of them
+            let stem = *rng.pick(&["item", "v", "field", "n"]);
+            let count = rng.range(20, 90);
+            let mut text = String::new();
+            for i in 0..count {
+                text.push_str(&format!("{stem}{i:02} = {i}\n"));
+            }
+            let target = rng.below(count);
+            let good = format!("{stem}{target:02}");
+            let typo = match rng.below(3) {
+                0 => good.replacen(stem, &stem[..stem.len().saturating_sub(1).max(1)], 1),
+                1 => format!("{good}x"),
+                _ => good.replacen(stem, &format!("{stem}_"), 1),
+            };
+            text.push_str(&format!("{stem}00 + {typo}\n"));
+            text
+        }
         2 => {
             // near-miss names: several in-scope names at the same edit distance from a typo
             let stem = *rng.pick(&["total", "count", "value", "index", "x", "ab"]);
@@ -918,6 +937,59 @@ fn dependent_program(rng: &mut Rng) -> String {
     text
 }
 
+/// W9b: a hole passed as an argument whose value unification has to find from *several*
+/// positions of a dependent type at once (`g : (a : type) -> p a a -> int`, `g _ v`), with
+/// candidates that are equal only up to definitions, or not equal at all. Which candidate the
+/// hole ends up holding, and which one a diagnostic quotes, is decided by the order in which the
+/// positions are unified.
+fn hole_argument_program(rng: &mut Rng) -> String {
+    let occurrences = rng.range(2, 3);
+    let fam = format!("{}type", "type -> ".repeat(occurrences));
+    let hole_positions = vec!["a"; occurrences].join(" ");
+    let result = *rng.pick(&["int", "bool", "type"]);
+    let mut text = String::from("(q : type -> type) =>\n");
+    text.push_str(&format!("(p : {fam}) =>\n"));
+    text.push_str(&format!("(g : (a : type) -> p {hole_positions} -> {result}) =>\n"));
+    let abstract_b = rng.chance(2, 3);
+    if abstract_b {
+        text.push_str("(b : type) =>\n");
+    }
+    let base = if abstract_b { "b" } else { "int" };
+    // definitions that are equal to one another up to unfolding, and some that are not
+    text.push_str(&format!("  c = {base}\n"));
+    text.push_str(&format!("  w = q {base}\n"));
+    let other = *rng.pick(&["bool", "int", "type"]);
+    let pool = [
+        "w".to_owned(),
+        "(q c)".to_owned(),
+        format!("(q {base})"),
+        format!("(q {other})"),
+        "c".to_owned(),
+        base.to_owned(),
+    ];
+    let mut args = vec![];
+    for i in 0..occurrences {
+        // a parenthesised argument that is not the last one is re-associated by the parser, so
+        // only the last position may be parenthesised; earlier ones use names
+        let pick = loop {
+            let cand = pool[rng.below(pool.len())].clone();
+            if i + 1 == occurrences || !cand.starts_with('(') {
+                break cand;
+            }
+        };
+        args.push(pick);
+    }
+    let v_ty = format!("p {}", args.join(" "));
+    let body = match rng.below(4) {
+        0 => "g _ v".to_owned(),
+        1 => "(r = g _ v; r)".to_owned(),
+        2 if result == "int" => "g _ v + g _ v".to_owned(),
+        _ => "g _ v".to_owned(),
+    };
+    text.push_str(&format!("  (v : {v_ty}) => {body}\n"));
+    text
+}
+
 /// Generated case number `index` of the stream; `corpus` is W1.
 pub fn generate(rng: &mut Rng, corpus: &[String]) -> Case {
     // Swarm: the mix is itself drawn per case.
@@ -959,7 +1031,10 @@ pub fn generate(rng: &mut Rng, corpus: &[String]) -> Case {
         }
         69..=73 => Case { family: "W6-holes", source: holes_program(rng) },
         74..=79 => Case { family: "W8-runtime", source: runtime_program(rng) },
-        80..=85 => Case { family: "W9-dependent", source: dependent_program(rng) },
+        80..=85 => {
+            let source = if rng.chance(1, 3) { hole_argument_program(rng) } else { dependent_program(rng) };
+            Case { family: "W9-dependent", source }
+        }
         86..=93 => Case { family: "W7-composite", source: composite(rng, corpus) },
         _ => {
             // splice two corpus programs at token granularity
